@@ -232,27 +232,29 @@ pub struct ScopeInfo {
     pub scope: Vec<usize>,
     pub full_prefix: String,
     pub own_prefix: bool,
+    /// nested with a domain guard of its own
+    pub own_domain: bool,
     pub fallback: Option<usize>,
     pub domain: Option<String>,
 }
 
 pub fn scope_infos(spec: &AppSpec) -> Vec<ScopeInfo> {
-    fn rec(spec: &AppSpec, regs: &[Reg], scope: &mut Vec<usize>, prefix: &str, own_prefix: bool, domain: &Option<String>, out: &mut Vec<ScopeInfo>) {
+    fn rec(spec: &AppSpec, regs: &[Reg], scope: &mut Vec<usize>, prefix: &str, own_prefix: bool, own_domain: bool, domain: &Option<String>, out: &mut Vec<ScopeInfo>) {
         let fallback = regs.iter().rev().find_map(|r| match r {
             Reg::Comp { idx } if spec.comps[*idx].kind == CompKind::Fallback => Some(*idx),
             _ => None,
         });
-        out.push(ScopeInfo { scope: scope.clone(), full_prefix: prefix.to_string(), own_prefix, fallback, domain: domain.clone() });
+        out.push(ScopeInfo { scope: scope.clone(), full_prefix: prefix.to_string(), own_prefix, own_domain, fallback, domain: domain.clone() });
         for (pos, r) in regs.iter().enumerate() {
             if let Reg::Nest { prefix: p, domain: d, bp } = r {
                 scope.push(pos);
-                rec(spec, bp, scope, &format!("{prefix}{}", p.clone().unwrap_or_default()), p.is_some(), &d.clone().or_else(|| domain.clone()), out);
+                rec(spec, bp, scope, &format!("{prefix}{}", p.clone().unwrap_or_default()), p.is_some(), d.is_some(), &d.clone().or_else(|| domain.clone()), out);
                 scope.pop();
             }
         }
     }
     let mut out = vec![];
-    rec(spec, &spec.bp, &mut vec![], "", false, &None, &mut out);
+    rec(spec, &spec.bp, &mut vec![], "", false, false, &None, &mut out);
     out
 }
 
@@ -456,7 +458,22 @@ pub fn route_request(spec: &AppSpec, method: &str, path: &str, host: Option<&str
                 scopes.iter().find(|s| guarded && s.domain == domain && s.scope.len() == 1).map(|s| s.scope.clone()).unwrap_or_default()
             }
         };
-        let comp = fallback_from(&start);
+        // A fallback registered in a blueprint nested *without* a prefix only serves the method
+        // misses of that blueprint's routes ("Nesting without prefix" in Blueprint::fallback):
+        // for an unmatched path only the root and the blueprints nested with a prefix count.
+        let comp = {
+            let mut cur = start.clone();
+            loop {
+                let s = find_scope(&cur);
+                if (s.own_prefix || s.own_domain || cur.is_empty()) && s.fallback.is_some() {
+                    break s.fallback;
+                }
+                if cur.is_empty() {
+                    break None;
+                }
+                cur.pop();
+            }
+        };
         notes.nested_fallback = comp.is_some() && !start.is_empty() && find_scope(&start).fallback.is_some();
         return (Routed::Fallback { comp, allowed: Some(vec![]) }, notes);
     }
